@@ -606,6 +606,9 @@ func (g *Gen) runPass() {
 	}
 	if !isInit {
 		for _, gi := range g.cs.Globals {
+			if fn.Pkg == nil || gi.Pkg != fn.Pkg.Pkg.Path() {
+				continue // invariants of other packages' globals are not needed here
+			}
 			env := g.envAt(st, st, g.prog.typesPkg(gi.Pkg), nil)
 			t := env.compileBool(gi.Clause.Expr)
 			g.reportSpecErrors(env, gi.Clause)
